@@ -169,7 +169,7 @@ def bfs(ctx, system, depth, op_indices=None, state_cap=4_000_000, chunk=64,
         frontier = new_frontier
         if keep_frontiers:
             res.frontiers.append(list(frontier))
-        if res.states > state_cap:
-            res.capped = True
+        if res.states > state_cap and level < depth:
+            res.capped = True      # the cap prevented a requested level: the run is NOT exhaustive to `depth`
             break
     return res
